@@ -370,6 +370,19 @@ def path_tick() -> None:
         os.write(_PATH_FD, b".")
 
 
+def untraced(fn: Callable[[], Any]) -> Any:
+    """Run fn outside CrossHair tracing (no-op when not tracing).  For harness-side work on values that are
+    concrete on the current path (oracles, input construction) and for SQLAlchemy's own statement introspection."""
+    try:
+        from crosshair.tracers import NoTracing, is_tracing
+    except Exception:  # pragma: no cover
+        return fn()
+    if is_tracing():
+        with NoTracing():
+            return fn()
+    return fn()
+
+
 def cfg() -> dict[str, Any]:
     return json.loads(os.environ.get("VERIF_CFG", "{}"))
 
